@@ -407,6 +407,7 @@ type getState struct {
 	maxSeg   int
 	ooo      bool
 	dropped  bool
+	nacked   bool // some Interest of this consumption was answered with a Nack (final for the client)
 	retrans  bool
 	lateData bool
 }
@@ -869,7 +870,7 @@ func (h *harness) step(step int, op Op) error {
 		synctest.Wait()
 		return h.collect()
 
-	case "dl", "dr", "dup":
+	case "dl", "dr", "dup", "nk":
 		// nothing in flight: let virtual time pass until a retransmission shows up (bounded)
 		for waited := 0; len(h.fl) == 0 && waited < 24 && !h.allDone(); waited++ {
 			time.Sleep(250 * time.Millisecond)
@@ -888,6 +889,30 @@ func (h *harness) step(step int, op Op) error {
 			h.noteDrop(h.fl[i])
 			h.fl = append(h.fl[:i:i], h.fl[i+1:]...)
 			return nil
+		case "nk":
+			// the network answers an Interest with a Nack (no route): for the consumer one
+			// transmission that brought no Data, known at once instead of after the lifetime --
+			// so a fetch can fail while the Interests of other segments are still in flight
+			// (seeded C15-r6-2: Data arriving after that completed the fetch a second time)
+			f := h.fl[i]
+			if !f.toProducer || !f.interest {
+				return h.deliver(i, false)
+			}
+			h.noteDrop(f)
+			if g := h.gets[h.m.objOf(f.name)]; g != nil && !g.done() {
+				g.nacked = true
+			}
+			h.fl = append(h.fl[:i:i], h.fl[i+1:]...)
+			h.cls["interest-answered-with-a-nack"] = true
+			lp := &spec.LpPacket{Nack: &spec.NetworkNack{Reason: spec.NackReasonNoRoute}, Fragment: enc.Wire{append([]byte{}, f.buf...)}}
+			pkt := &spec.Packet{LpPacket: lp}
+			e := spec.PacketEncoder{}
+			e.Init(pkt)
+			if err := h.cf.onPkt(enc.NewBufferReader(e.Encode(pkt).Join())); err != nil {
+				return fmt.Errorf("consumer engine failed on a Nack for %s: %v", f.name, err)
+			}
+			synctest.Wait()
+			return h.collect()
 		case "dup":
 			h.cls["duplicated-packet"] = true
 			return h.deliver(i, true)
@@ -1009,6 +1034,11 @@ func (h *harness) verdict() error {
 		} else {
 			h.cls["completed-with-error"] = true
 			justified := false
+			if g.nacked {
+				// a Nack is a final answer for the client: failing the consumption is legitimate
+				justified = true
+				h.cls["failed-after-a-nack"] = true
+			}
 			for _, r := range starved {
 				if r.tx >= retryBudget+1 {
 					justified = true
@@ -1207,10 +1237,10 @@ func genCase(t *rapid.T) Case {
 	c.Ops = append(c.Ops, genGet(t, 0, objs[0], "get0"))
 	nsteps := rapid.IntRange(0, 60).Draw(t, "nsteps")
 	kinds := []string{"dl", "dl", "dl", "dl", "dl", "dl", "dl", "dl", "dl", "dl", "dl", "dl", "dl", "dl", "dl", "dl", "dl", "dl",
-		"dr", "dr", "dr", "dr", "dr", "dup", "dup", "adv", "adv", "adv", "adv", "adv", "pub", "rm", "get", "get"}
+		"dr", "dr", "dr", "dr", "dr", "nk", "nk", "nk", "dup", "dup", "adv", "adv", "adv", "adv", "adv", "pub", "rm", "get", "get"}
 	for i := 0; i < nsteps; i++ {
 		switch k := rapid.SampledFrom(kinds).Draw(t, "kind"); k {
-		case "dl", "dr", "dup":
+		case "dl", "dr", "dup", "nk":
 			c.Ops = append(c.Ops, Op{K: k, I: rapid.IntRange(0, 11).Draw(t, "idx")})
 		case "adv":
 			c.Ops = append(c.Ops, Op{K: "adv", D: rapid.SampledFrom(advPool).Draw(t, "d")})
